@@ -471,6 +471,11 @@ def gen_case(rng):
         n = pick_n(rng, geom)
         pts = gen_points(rng, fam if fam != 'outoffamily' else 'random', n)
         c = [rng.uniform(-3, 3), rng.uniform(-3, 3)] if rng.random() < 0.5 else [0.0, 0.0]
+        if rng.random() < 0.12:
+            # a compact group far from the origin (a few stars in a corner of a large mosaic): the single-shot fitters
+            # get the uncentred coordinates, so anything that should depend on the spread but uses the raw size shows
+            far = rng.choice([1e3, 1e4, 3e4])
+            c = [far * rng.choice([-1.0, 1.0, 0.3]), far * rng.choice([-1.0, 1.0, 0.7])]
         if fam == 'lattice':
             uv = [[mag * a for a in p] for p in pts]
         else:
